@@ -122,14 +122,17 @@ def mutate(kind, w, tasks):
         pass
 
 
-def check_copy(U, a, enc, hist, sel, mode, acc):
+def check_copy(U, a, enc, hist, sel, mode, acc, follow_ups=True):
     """One clone/subtree call on the live state + all follow-up independence checks."""
     X = U.wbs[0]
     members = a.members(0)
     case = {'universe': U.name, 'readable_history': [bfs.O.describe(h) for h in hist], 'history': [list(h) for h in hist],
-            'call': 'clone()' if sel is None else f'subtree({"[" + ", ".join("t%d" % i for i in sel) + "]" if mode == "list" else "t%d" % sel[0]})'}
+            'call': 'clone()' if sel is None else f'subtree({"[" + ", ".join("t%d" % i for i in sel) + "]" if mode != "bare" else "t%d" % sel[0]})'
+                    + ('' if mode in ('list', 'bare') else f' with the selection given as a {mode}')}
 
     def V(clause, trig, msg):
+        if mode not in ('list', 'bare') and trig == '-':
+            trig = 'selection-as-' + mode
         acc.violation('C10', f'{"clone" if sel is None else "subtree"}/{clause}/{trig}', msg, case)
 
     def call():
@@ -137,6 +140,14 @@ def check_copy(U, a, enc, hist, sel, mode, acc):
             return X.clone()
         if mode == 'bare':
             return X.subtree(U.tasks[sel[0]])
+        if mode == 'generator':
+            # Iterable[Task] is the documented argument type: a one-shot iterable is as good as a list
+            return X.subtree(U.tasks[i] for i in sel)
+        if mode == 'tuple':
+            return X.subtree(tuple(U.tasks[i] for i in sel))
+        if mode == 'task-list':
+            picked = {id(U.tasks[i]) for i in sel}
+            return X.subtree(X.tasks(lambda t: id(t) in picked))
         return X.subtree([U.tasks[i] for i in sel])
 
     src_before = obs_members(U, 0)
@@ -212,7 +223,7 @@ def check_copy(U, a, enc, hist, sel, mode, acc):
         V('wbs-attributes-missing', '-', f'copy.title = {getattr(cw, "title", None)!r}, source {X.title!r}')
     # (h) independence: changes to the copy do not show on the source, and vice versa
     cobs0 = copy_obs(cw)
-    for kind in MUTATIONS:
+    for kind in (MUTATIONS if follow_ups else ()):
         # mutate the copy (a fresh one each time)
         U.restore(enc)
         try:
@@ -372,6 +383,12 @@ def _work(chunk):
             if len(sel) == 1:
                 U.restore(enc)
                 check_copy(U, a, enc, hist, sel, 'bare', acc)
+            # the other forms the signature admits (Iterable[Task]); the independence follow-ups are those of the list form
+            for form in ('generator', 'tuple', 'task-list'):
+                if form == 'task-list' and list(sel) != sorted(sel, key=members.index):
+                    continue  # a query result comes in WBS order; only selections already in that order mean the same thing
+                U.restore(enc)
+                check_copy(U, a, enc, hist, sel, form, acc, follow_ups=False)
         if len(acc.samples) < 2 and len(members) >= 2 and any(a.pred[i] for i in members):
             acc.sample({'history': [bfs.O.describe(h) for h in hist], 'members': members})
     return acc
